@@ -111,7 +111,8 @@ class Unit:
     def __init__(self, id, fn, pre=None, post=None, replace=(), cfg='abacus', backends=('sat',), timeout=120,
                  tier='quick', cxx=None, note='', split=False, loop_contracts=None, ghost=None, extra_flags=(),
                  lemma=False, requires_extra=(), ensures_extra=(), no_canary=False, ub_only=False, unwind=None,
-                 object_bits=None, defines=(), link_src=False, expect_props=()):
+                 object_bits=None, defines=(), link_src=False, expect_props=(), engine='bv'):
+        self.engine = engine
         self.id, self.fn, self.pre, self.post = id, fn, pre, post
         self.replace = list(replace)
         self.cfg, self.backends, self.timeout, self.tier = cfg, list(backends), timeout, tier
@@ -240,6 +241,11 @@ def _run(cmd, timeout, cwd=None, env=None, mem_gb=10):
         import resource
         resource.setrlimit(resource.RLIMIT_AS, (mem_gb << 30, mem_gb << 30))
         os.setsid()
+        try:
+            import ctypes
+            ctypes.CDLL('libc.so.6').prctl(1, 9)   # PR_SET_PDEATHSIG: die with the driver
+        except Exception:
+            pass
     t0 = time.time()
     try:
         p = subprocess.Popen(cmd, stdout=subprocess.PIPE, stderr=subprocess.PIPE, text=True, cwd=cwd, env=env,
